@@ -48,7 +48,7 @@ pub const TANH18_BITS: u64 = crate::tables::TANH18_BITS;
 pub const TANH9F_BITS: u32 = crate::tables::TANH9F_BITS;
 
 macro_rules! contract_stubs {
-    ($f:ty, $tanh:ident, $atanh:ident, $ln:ident, $exp:ident, $ln1p:ident, $clampz:expr, $tmax:expr, $amax:expr) => {
+    ($f:ty, $tanh:ident, $atanh:ident, $ln:ident, $exp:ident, $ln1p:ident, $clampz:expr, $tmax:expr, $amax:expr, $up:expr, $dn:expr) => {
         #[cfg(kani)]
         pub fn $tanh(z: $f) -> $f {
             if z.is_nan() {
@@ -61,7 +61,8 @@ macro_rules! contract_stubs {
             kani::assume(!r.is_nan());
             let ra = r.abs();
             // |tanh z| <= min(|z|, 1); for |z| <= clamp also <= tanh(clamp)
-            kani::assume(ra <= 1.0 && ra <= a);
+            // (libm may be one ulp above |z| for small z: slack factor)
+            kani::assume(ra <= 1.0 && ra <= a * $up);
             if a <= $clampz {
                 kani::assume(ra <= $tmax);
             }
@@ -81,7 +82,7 @@ macro_rules! contract_stubs {
             if p.abs() <= $tmax {
                 kani::assume(r.abs() <= $amax);
                 // |atanh p| >= |p|
-                kani::assume(r.abs() >= p.abs());
+                kani::assume(r.abs() >= p.abs() * $dn);
             }
             r
         }
@@ -105,6 +106,13 @@ macro_rules! contract_stubs {
             let r: $f = kani::any();
             if x <= 0.0 {
                 kani::assume(r >= 0.0 && r <= 1.0);
+                // decay: e^x <= e^-1, e^-2, e^-4, e^-8 (rounded up)
+                if x <= -1.0 { kani::assume(r <= 0.3679); }
+                if x <= -2.0 { kani::assume(r <= 0.1354); }
+                if x <= -4.0 { kani::assume(r <= 0.01832); }
+                if x <= -8.0 { kani::assume(r <= 0.0003355); }
+            } else if x <= 8.0 {
+                kani::assume(r >= 1.0 && r <= 2981.0);
             } else if x.is_finite() {
                 kani::assume(r >= 1.0);
             }
@@ -115,15 +123,17 @@ macro_rules! contract_stubs {
         pub fn $ln1p(z: $f) -> $f {
             let r: $f = kani::any();
             if z >= 0.0 && z <= 1.0 {
-                kani::assume(r >= 0.0 && r <= z && r <= 0.6932);
+                kani::assume(r >= 0.0 && r <= z * $up && r <= 0.6932);
+            } else if z > 1.0 && z <= 1.0e6 {
+                kani::assume(r >= 0.6931 && r <= z * $up);
             }
             r
         }
     };
 }
 
-contract_stubs!(f64, c_tanh64, c_atanh64, c_ln64, c_exp64, c_ln1p64, 18.0, f64::from_bits(TANH18_BITS), 18.1);
-contract_stubs!(f32, c_tanh32, c_atanh32, c_ln32, c_exp32, c_ln1p32, 9.0, f32::from_bits(TANH9F_BITS), 9.1);
+contract_stubs!(f64, c_tanh64, c_atanh64, c_ln64, c_exp64, c_ln1p64, 18.0, f64::from_bits(TANH18_BITS), 18.1, 1.00000000000001, 0.99999999999999);
+contract_stubs!(f32, c_tanh32, c_atanh32, c_ln32, c_exp32, c_ln1p32, 9.0, f32::from_bits(TANH9F_BITS), 9.1, 1.00001, 0.99999);
 
 // ---------------------------------------------------------------- SURROGATE
 
@@ -166,16 +176,16 @@ mod tests {
         let t9 = f32::from_bits(TANH9F_BITS);
         let mut z = 5e-31f64;
         while z < 1e31 {
-            for s in [1.0f64, 1.0000001, 1.37, 1.9999] {
+            for s in [1.0f64, 1.0000001, 1.003, 1.37, 1.61803, 1.9999] {
                 let a = z * s;
                 let r = a.tanh();
-                assert!(r >= 0.0 && r <= 1.0 && r <= a && r >= (0.5 * a).min(0.46));
+                assert!(r >= 0.0 && r <= 1.0 && r <= a * 1.00000000000001 && r >= (0.5 * a).min(0.46));
                 assert!((-a).tanh() == -r);
                 if a <= 18.0 { assert!(r <= t18); }
                 let rf = (a as f32).tanh();
                 let af = a as f32;
                 if af.is_finite() && af >= 5e-31 {
-                    assert!(rf >= 0.0 && rf <= 1.0 && rf <= af && rf >= (0.5 * af).min(0.46));
+                    assert!(rf >= 0.0 && rf <= 1.0 && rf <= af * 1.00001 && rf >= (0.5 * af).min(0.46));
                     if af <= 9.0 { assert!(rf <= t9); }
                 }
                 // ln on [2.5e-31, 1]
@@ -186,17 +196,17 @@ mod tests {
                     if (a as f32) >= 2.5e-31 { assert!(lf >= -71.0 && lf <= 0.0); }
                     // ln_1p on [0,1]
                     let q = a.ln_1p();
-                    assert!(q >= 0.0 && q <= a && q <= 0.6932);
+                    assert!(q >= 0.0 && q <= a * 1.00000000000001 && q <= 0.6932);
                     let qf = (a as f32).ln_1p();
-                    assert!(qf >= 0.0 && qf <= (a as f32) && qf <= 0.6932);
+                    assert!(qf >= 0.0 && qf <= (a as f32) * 1.00001 && qf <= 0.6932);
                     // atanh
                     if a <= t18 {
                         let h = a.atanh();
-                        assert!(h >= a && h <= 18.1);
+                        assert!(h >= a * 0.99999999999999 && h <= 18.1);
                     }
                     if (a as f32) <= t9 {
                         let h = (a as f32).atanh();
-                        assert!(h >= (a as f32) && h <= 9.1);
+                        assert!(h >= (a as f32) * 0.99999 && h <= 9.1);
                     }
                 }
                 if a > 1.0 && a < 1e300 { assert!(a.ln() >= 0.0 && a.ln() <= a); }
@@ -206,8 +216,17 @@ mod tests {
                 let ef = (-(a as f32)).exp();
                 assert!(ef >= 0.0 && ef <= 1.0);
                 if a < 700.0 { assert!(a.exp() >= 1.0); }
+                if a <= 8.0 { assert!(a.exp() <= 2981.0 && (a as f32).exp() <= 2981.0); }
+                if a >= 1.0 { assert!(e <= 0.3679 && ef <= 0.3679); }
+                if a >= 2.0 { assert!(e <= 0.1354 && ef <= 0.1354); }
+                if a >= 4.0 { assert!(e <= 0.01832 && ef <= 0.01832); }
+                if a >= 8.0 { assert!(e <= 0.0003355 && ef <= 0.0003355); }
+                if a > 1.0 && a <= 1.0e6 {
+                    assert!(a.ln_1p() >= 0.6931 && a.ln_1p() <= a * 1.00000000000001);
+                    assert!((a as f32).ln_1p() >= 0.6931 && (a as f32).ln_1p() <= (a as f32) * 1.00001);
+                }
             }
-            z *= 1.5;
+            z *= 1.013;
         }
         assert!(t18.atanh() <= 18.1 && t9.atanh() <= 9.1);
         assert_eq!(1.0f64.ln(), 0.0);
